@@ -25,7 +25,7 @@ REAL, STUBBED = C.REAL, C.STUBBED
 
 
 def budget(tier):
-    return dict(nights=64, wall_s=170) if tier == "quick" else dict(nights=1400, wall_s=1700)
+    return dict(nights=130, wall_s=240) if tier == "quick" else dict(nights=1400, wall_s=1700)
 
 
 def model_minimum(profile):
@@ -121,7 +121,11 @@ def make_spec(st, idx, tier):
     if chance(rng, 0.5) and n_full > 0:
         full = [o for o in ops if o["k"] == "deliver" and o["ver"] == 1]
         d = full[int(rng.integers(0, len(full)))]
-        ops.append(dict(t=round(t + 1, 3), k="dup", u=d["u"], ver=1, row=dict(d["row"])))
+        dup_row = dict(d["row"])
+        if chance(rng, 0.5):
+            # the second row is a corrected count of the same unit, not a byte-identical copy
+            dup_row["results_turnout"] += 25
+        ops.append(dict(t=round(t + 1, 3), k="dup", u=d["u"], ver=1, row=dup_row))
         ops.append(dict(t=round(t + 2, 3), k="poll", role="duplicate"))
     return dict(world=world, profile=profile, ops=ops, feed_stats=dict(sim_minutes=t), need_hint=need)
 
